@@ -17,8 +17,12 @@ labs = [f"/tmp/fin{i+1}" for i in range(K)]
 # from its fingerprint is switched off here for time; the pass is therefore, if anything, weaker than the prescribed run
 env = dict(os.environ, VERIF_NCPU=os.environ.get("VERIF_NCPU", "4"), VERIF_NO_ESCALATE="1")
 rows, lock = {}, threading.Lock()
+if os.environ.get("LAB_PASS_RESUME") == "1" and os.path.exists("/verif/out/lab_pass.json"):
+    # continue an earlier pass: keep its rows, run only the seeds it did not reach
+    for r in json.load(open("/verif/out/lab_pass.json")):
+        rows[r[0]] = tuple(r)
 # longest checks first so the labs finish together
-queue = sorted(names, key=lambda n: (0 if "-r3mut" in n else 1 if "-r2mut" in n else 2, n[:3] in ("C03",), n))
+queue = sorted((n for n in names if n not in rows), key=lambda n: (0 if "-r3mut" in n else 1 if "-r2mut" in n else 2, n[:3] in ("C03",), n))
 
 
 def worker(lab):
